@@ -9,7 +9,7 @@ from props.c01 import themed_case
 class P(EngProp):
     id = "C08"
     rule = ("a record set in time order (timestamps unique, a third of the cases with exact duplicate records: same timestamp, line and attributes; a fifth delivered out of time order, unlimited evaluations only) and a query whose stages add (json/logfmt/label_format), remove (drop/keep) or "
-            "rewrite labels, incl. label values containing quote, backslash, comma, equals sign, newline and values that imitate the rendering of other labels; evaluated with "
+            "rewrite labels, incl. label values containing quote, backslash, comma, equals sign, newline and values that imitate the rendering of other labels, and values `| json` extracted from numbers / booleans next to the same text extracted from strings; evaluated with "
             "limits {-5, -1, 0, 1, 2, N-1, N, N+1, 100} on the real engine. Checked on the observed results: no two streams share a label set, every stream non-empty and sorted, "
             "labels sorted; the limit-L result is the first min(L,N) entries in time order of the unlimited one; non-positive limits return all; total entries = N; and each "
             "result equals the faithful model (which places every entry in the stream of exactly its labels).")
@@ -23,6 +23,8 @@ class P(EngProp):
         for i in range(n):
             if i % 8 == 5:
                 recs, orc, sel, pipe, theme = self.fewstreams_case(rng, g)
+            elif i % 8 == 3:
+                recs, orc, sel, pipe, theme = self.typed_case(rng, g)
             elif i % 4 == 0:
                 recs, orc, sel, pipe, theme = self.quoting_case(rng, g)
             else:
@@ -57,6 +59,24 @@ class P(EngProp):
             cases.append({"kind": theme, "recs": [g.rec_json(r) for r in recs], "oracle": orc, "evals": evals, "rels": rels,
                           "stages": [s["k"] for s in pipe], "note": "limits %r" % (lims,)})
         return cases
+
+    def typed_case(self, rng, g):
+        """labels extracted by `| json` from numbers and booleans next to the same text extracted from strings: a stream is identified by the
+        label set as reported (names and value texts), not by how a value was typed when it was extracted"""
+        n = rng.randint(3, 8)
+        lines, jsonl = [], []
+        for _ in range(n):
+            pairs = [("id", rng.choice([("num", "1", "1"), "1", ("num", "2", "2"), "2"])), ("ok", rng.choice([True, "true", False, "false"]))]
+            if rng.random() < 0.5:
+                pairs.append(("ratio", rng.choice([("num", "0.5", "0.5"), "0.5"])))
+            pairs = rng.sample(pairs, rng.randint(1, len(pairs)))
+            jl = egen.JLine(rng, pairs)
+            lines.append(jl.text); jsonl.append((B(jl.text), jl.coq))
+        recs = g.records(lines, with_attrs=False)
+        for r in recs:
+            r["res"] = [("job", "x")]
+        pipe = [g.st_json(), rng.choice([g.st_dropkeep("keep", ["id", "ok", "ratio"], []), g.st_dropkeep("drop", ["msg"], []), g.st_dropkeep("keep", ["id"], [])])]
+        return recs, oracles_coq(jsonl=dedup(jsonl)), g.selector(extra=False), pipe, "typed"
 
     def fewstreams_case(self, rng, g):
         """one or two label sets over many records (the line label is dropped), so that streams hold several entries"""
